@@ -11,6 +11,15 @@ NOFUZZY = ["term", "every", "null", "prefix", "wildcard", "termrange", "numrange
            "dismax", "andnot", "andmaybe", "require", "not", "const"]
 
 
+def scoresub(o):
+    """The hits of a limited search as (document, score) pairs to be found in the specified scores.  'alt' (the
+    same search with WrappingMatcher.replace() corrected) is only used to recognise that recorded finding."""
+    d = {"kind": "scoresub", "path": o["path"] + " scores", "hits": o["hits"]}
+    if "alt" in o:
+        d["alt"] = o["alt"]
+    return d
+
+
 def check(run):
     quick = run.tier == "quick"
     rng = random.Random(run.seed + 909)
@@ -18,27 +27,31 @@ def check(run):
                 "in {1/2,1,2,4}; Hit scores under limit=None / terms=True judged by TLC against QuerySem!Denote")
     cases, meta = c01.build_cases(run, rng, 12 if quick else 120, 30 if quick else 40, ndocs=(4, 9), depth=3,
                                   paths=("unlimited", "limited", "terms"), scored_only=True, cmp="full",
-                                  kinds=("ranked", "error"), ops=NOFUZZY, limits=(1, 2, 3))
+                                  kinds=("ranked", "error"), ops=NOFUZZY, limits=(1, 2, 3), alt=True)
     for cs in cases:
         for qo in cs["qs"]:
             # which documents a limited search returns is C05's subject; that the ones it returns carry the
             # documented score (independent of the collector and of the other results) is this property's
-            qo["obs"] = [o if o.get("k", 0) == 0 else {"kind": "scoresub", "path": o["path"] + " scores",
-                                                        "hits": o["hits"]} for o in qo["obs"]]
+            qo["obs"] = [o if o.get("k", 0) == 0 else scoresub(o) for o in qo["obs"]]
     # unions/optional clauses over more documents with small limits: the matcher tree is rewritten during
     # the search; the scores of what is returned must not notice
     c2, m2 = c01.build_cases(run, rng, 8 if quick else 80, 30 if quick else 40, ndocs=(10, 20), depth=3,
                              paths=("limited", "terms"), scored_only=True, cmp="full", kinds=("ranked", "error"),
-                             ops=["term", "every", "or", "andmaybe", "and"], limits=(1, 2, 3, 4))
+                             ops=["term", "every", "or", "andmaybe", "and"], limits=(1, 2, 3, 4), alt=True)
     for cs in c2:
         for qo in cs["qs"]:
-            qo["obs"] = [{"kind": "scoresub", "path": o["path"] + " scores", "hits": o["hits"]}
-                         for o in qo["obs"] if o["kind"] == "ranked"]
+            qo["obs"] = [scoresub(o) for o in qo["obs"] if o["kind"] == "ranked"]
     cases += c2
     meta += m2
     rejects = qobs.judge(run, cases)
     c01.report(run, "C09", cases, meta, rejects, "c09")
+    # one large sparse segment: unions of three and more clauses add their scores up window by window
+    # (2048 documents at a time); a document's score must not depend on the window it falls in
+    cases, meta = c01.big_cases(run, rng, 1 if quick else 6, cmp="full", paths=("unlimited",))
+    rejects = qobs.judge(run, cases, name="QueryCheck-large", chunk=2)
+    c01.report(run, "C09", cases, meta, rejects, "c09-large")
     layouts(run, rng, 4 if quick else 40, 8 if quick else 12)
+    named_field_parameters(run, rng)
 
 
 def all_weightings():
@@ -76,6 +89,48 @@ def reference_score(wname, field, st, weight, length):
     b = btitle if field == "title" else bbody
     avgfl = (st["totlen"] / float(st["n"])) or 1.0
     return idf * ((weight * (k1 + 1.0)) / (weight + k1 * ((1.0 - b) + b * length / avgfl)))
+
+
+def named_field_parameters(run, rng):
+    """BM25F's per-field B (keyword argument <fieldname>_B) must be applied to exactly that field, whatever
+    characters the field name consists of; the term scores must be the documented formula with that B."""
+    import math
+    from whoosh import fields, scoring, query
+    from whoosh.filedb.filestore import RamStorage
+    names = ["body", "main_text", "a_b_c", "x_B", "title_"]
+    schema = fields.Schema(key=fields.ID(stored=True), **dict((f, fields.TEXT(stored=True)) for f in names))
+    ix = RamStorage().create_index(schema)
+    with ix.writer() as w:
+        for i in range(6):
+            kw = dict((f, u" ".join([u"alfa"] * rng.randrange(1, 4) + [u"bravo"] * rng.randrange(0, 9))) for f in names)
+            w.add_document(key=u"k%d" % i, **kw)
+    flags = []
+    for f in names:
+        for bf, bdef in ((0.1, 0.9), (1.0, 0.25)):
+            wobj = scoring.BM25F(B=bdef, K1=1.5, **{f + "_B": bf})
+            with ix.searcher(weighting=wobj) as s:
+                rd = s.reader()
+                for g in names:
+                    b = bf if g == f else bdef
+                    n = float(rd.doc_count_all())
+                    df = rd.doc_frequency(g, u"alfa")
+                    idf = math.log(n / (df + 1.0)) + 1.0
+                    avgfl = (rd.field_length(g) / n) or 1.0
+                    ok = True
+                    worst = 0.0
+                    for h in s.search(query.Term(g, u"alfa"), limit=None):
+                        wt = float(h[g].split().count(u"alfa"))
+                        fl = rd.doc_field_length(h.docnum, g)
+                        ref = idf * ((wt * (1.5 + 1.0)) / (wt + 1.5 * ((1.0 - b) + b * fl / avgfl)))
+                        worst = max(worst, abs(ref - h.score))
+                        if abs(ref - h.score) > 1e-9 * max(1.0, abs(ref)):
+                            ok = False
+                    flags.append({"kind": "flag", "path": "BM25F(B=%s, %s_B=%s): scores in field %r follow B=%s" % (bdef, f, bf, g, b),
+                                  "value": ok, "worst_abs_error": worst})
+    run.count(len(flags))
+    cases = [{"idx": {"docs": []}, "qs": [{"q": {"op": "null"}, "obs": flags}]}]
+    rejects = qobs.judge(run, cases, name="QueryCheck-fieldparams")
+    c01.report(run, "C09", cases, [{"plan": ["per-field parameters"], "nseg": 1, "deleted": 0}], rejects, "c09-fieldparams")
 
 
 def layouts(run, rng, nworlds, nqueries):
